@@ -1059,6 +1059,9 @@ def convert_avg_pool_to_conv2d(op: Operation, arch, nng) -> Operation:
         ),
     )
     op.weights.values = np.reshape(op.inputs[1].values, shape)
+    # The window divisor is packed into the scale record: an int32 bias selects full precision scaling, the default bias of an
+    # int16 IFM (int64) would select the reduced scaling that the reference uses for int16 convolutions only
+    fixup_bias_tensors(op, arch, nng, DataType.int32)
 
     # Set IFM shapes after changing op type
     op.set_ifm_shapes()
